@@ -135,7 +135,7 @@ def escalate(chk, names):
 
 
 def run():
-    chk = Check("C15", props_modules=["GFO.Props.C15", "GFO.Props.LocalRuns", "GFO.Props.PopRuns", "GFO.Props.EvoRuns", "GFO.Props.PatternRuns", "GFO.Props.PowellRuns", "GFO.Props.SimplexRuns", "GFO.Props.DirectRuns", "GFO.Props.EvalTotal", "GFO.Gen.TrackerGenCheck", "GFO.Gen.PatternGenCheck", "GFO.Gen.PowellGenCheck"], gen_steps=(translators.gen_tracker, translators.gen_pattern, translators.gen_powell))
+    chk = Check("C15", props_modules=["GFO.Props.C15", "GFO.Props.LocalRuns", "GFO.Props.PopRuns", "GFO.Props.EvoRuns", "GFO.Props.PatternRuns", "GFO.Props.PowellRuns", "GFO.Props.SimplexRuns", "GFO.Props.DirectRuns", "GFO.Props.EvalTotal", "GFO.Gen.TrackerGenCheck", "GFO.Gen.PatternGenCheck", "GFO.Gen.PowellGenCheck"], gen_steps=(translators.gen_tracker, translators.gen_pattern, translators.gen_powell, translators.gen_pins))
     chk.build_and_audit()
     r = C.rng("C15")
     quick = C.tier() != "thorough"
